@@ -22,34 +22,35 @@ def _retag(ps, prop):
 
 def _c02(tier, seed):
     ps = families.c02(tier, seed) + families.wide("C02")
-    ps = ps + families.uniform_twins(ps, 2 if tier == "quick" else 1) + families.adv_twins(ps, 4 if tier == "quick" else 2)
+    ps = ps + families.uniform_twins(ps, 2 if tier == "quick" else 1) + families.adv_twins(ps, 4 if tier == "quick" else 2) + families.selfadv_twins(ps)
     ps = ps + families.own_placements("C02", ps) + families.own_spellings("C02", "PartialEq") + families.bound_twins(ps)
     return ps + families.canaries_eq(ps)
 
 
 def _c03(tier, seed):
     ps = families.c03(tier, seed) + families.wide("C03")
-    ps = ps + families.uniform_twins(ps, 2 if tier == "quick" else 1) + families.adv_twins(ps, 4 if tier == "quick" else 2)
+    ps = ps + families.uniform_twins(ps, 2 if tier == "quick" else 1) + families.adv_twins(ps, 4 if tier == "quick" else 2) + families.selfadv_twins(ps)
     ps = ps + families.own_placements("C03", ps) + families.own_spellings("C03", "Ord") + families.bound_twins(ps)
     return ps + families.canaries_ord(ps)
 
 
 def _c05(tier, seed):
     ps = families.c05(tier, seed) + families.wide("C05")
-    ps = ps + families.uniform_twins(ps, 2 if tier == "quick" else 1) + families.adv_twins(ps, 4 if tier == "quick" else 2)
+    ps = ps + families.uniform_twins(ps, 2 if tier == "quick" else 1) + families.adv_twins(ps, 4 if tier == "quick" else 2) + families.selfadv_twins(ps)
     ps = ps + families.own_placements("C05", ps) + families.own_spellings("C05", "Hash") + families.bound_twins(ps, genericize=True)
     return ps + families.canaries_hash(ps)
 
 
 def _c07(tier, seed):
     ps = families.c07(tier, seed) + families.wide("C07")
-    ps = ps + families.uniform_twins(ps, 2 if tier == "quick" else 1) + families.adv_twins(ps, 4 if tier == "quick" else 2)
+    ps = ps + families.uniform_twins(ps, 2 if tier == "quick" else 1) + families.adv_twins(ps, 4 if tier == "quick" else 2) + families.selfadv_twins(ps)
     ps = ps + families.own_placements("C07", ps) + families.bound_twins(ps) + families.bound_twins([p for p in ps if p.s("clone", "copy")], limit=5, suffix="c")
     return ps + families.canaries_clone(ps)
 
 
 def _c08(tier, seed):
     ps = families.c08(tier, seed)
+    ps = ps + families.selfadv_twins(ps, 7, 8)
     ps = ps + families.own_placements("C08", ps, 6) + families.bound_twins(ps, genericize=True)
     return ps + families.canaries_default(ps)
 
@@ -80,6 +81,8 @@ def _c04_aux(job):
 
 def _c04(tier, seed):
     ps = families.c04(tier, seed)
+    # same-variant clause: multi-field named variants with hostile same-typed names (the layout grid has one field per variant)
+    ps = ps + _retag([p for p in families.wide("C03") if "same-typed fields" in p.note], "C04")
     return ps + families.canaries_c04(ps)
 
 
